@@ -11,7 +11,7 @@ RULE = ('Cases = persistent worker kind x state at restart (never used, results 
 ASSUMPTIONS = ['responsive clock for the liveness clause "returns with a live worker"']
 
 PKINDS = ['pthread', 'pprocess', 'premote']
-STATES = ['unused', 'unread', 'queued', 'closed', 'died', 'killed', 'stuck', 'pipe-full', 'busy']
+STATES = ['unused', 'unread', 'queued', 'closed', 'died', 'killed', 'stuck', 'pipe-full', 'busy', 'unb-busy']
 
 
 def gen_case(ctx, rng, i, tag='random'):
@@ -82,7 +82,7 @@ class Run:
         kw = {}
         if c['own_pipe']:
             kw['results_pipe'] = Pipe()
-        r = lib.call_with_deadline(lib.make_worker, 600.0, kind, 'p_poison', kwargs={'poison': [-1]}, host=host, name='wname', userid=77,
+        r = lib.call_with_deadline(lib.make_worker, 600.0, kind, 'p_poison', kwargs={'poison': [-1], 'origin_only': [-2]}, host=host, name='wname', userid=77,
                                    probe=False, **kw)
         if r[0] != 'ok':
             return
@@ -137,6 +137,15 @@ class Run:
                 except Exception as e:   # noqa
                     self.log.append(['enqueue-exc', type(e).__name__])
                 s.sleep(0.2)
+            elif st == 'unb-busy':
+                # the worker has returned a value its parent cannot rebuild (a remote worker's result stream is given up there) and
+                # is in the middle of the next, long, cooperative call
+                try:
+                    w.enqueue(-2)
+                    w.enqueue({'$busy': 60.0})
+                except Exception as e:   # noqa
+                    self.log.append(['enqueue-exc', type(e).__name__])
+                s.sleep(0.3)
             elif st == 'stuck':
                 # swallow-everything item: the old incarnation cannot be stopped gracefully
                 w2 = None
@@ -185,7 +194,7 @@ class Run:
             if al[1] is not True:
                 self.viol('live-after-restart', f'is_alive={al[1]}:{st}')
                 return
-            if w.name != 'wname' or w.userid != 77 or w._target is not T.p_poison or w._kwargs != {'poison': [-1]}:
+            if w.name != 'wname' or w.userid != 77 or w._target is not T.p_poison or w._kwargs != {'poison': [-1], 'origin_only': [-2]}:
                 self.viol('equivalent', 'name/userid/target/defaults-changed', [w.name, w.userid])
             if kind != 'pthread' and w.id == old_id:
                 self.viol('new-identity', f'same-id-after-restart:{kind}')
